@@ -205,8 +205,8 @@ def run(tier):
             for ln in _pres_lines(rng):
                 gw.tasks.add_job(gw.logic, ln)
                 if flavour == "sync":
-                    while gw.tasks.queue:
-                        gw.tasks.transport.send(gw.tasks.run_job())
+                    if not _drain_real(gw):
+                        raise RuntimeError("the pump does not get past a message")
                 # the cover must hold after EVERY step, not only at the end of the history
                 S.append(cover())
         except Exception:  # pylint: disable=broad-except
@@ -265,6 +265,36 @@ def run(tier):
     rep.sample({"subscription_record": next((x for x in S if x[2]), S[0])})
     rep.assumptions += ["topic = levels joined by '/'; the empty prefix is the single empty level"]
     return rep.finish()
+
+
+def _drain_real(gw, limit=400):
+    """Run the library's own _poll_queue until the job queue is empty (bounded: a pump that keeps taking jobs without the
+    queue ever emptying is reported by the caller)."""
+    import mysensors.task as TASK
+    tasks = gw.tasks
+    real, n = tasks.run_job, [0]
+
+    class NoSleep:
+        time = staticmethod(__import__("time").time)
+        sleep = staticmethod(lambda d: None)
+    keep = TASK.time
+    TASK.time = NoSleep
+
+    def run_job(job=None):
+        n[0] += 1
+        if n[0] > limit or not tasks.queue:
+            tasks._stop_event.set()
+            return None
+        return real(job)
+    tasks.run_job = run_job
+    try:
+        tasks._stop_event.clear()
+        tasks._poll_queue()
+    finally:
+        del tasks.run_job
+        tasks._stop_event.clear()
+        TASK.time = keep
+    return n[0] <= limit
 
 
 async def _async_load(gw):
